@@ -6,7 +6,7 @@ deviations of synced collections encoded once (see DESIGN.md 2.4).
 import copy
 from collections.abc import Mapping, Sequence
 
-from .plain import Inv, Ref, Slice, norm, ordered_eq, plain, canon
+from .plain import Inv, Ref, Slice, norm, ordered_eq, plain, canon, type_exact_eq
 
 DICT_MUT = ["setitem", "delitem", "pop", "popitem", "clear", "update", "setdefault", "reset"]
 DICT_READ = ["getitem", "get", "len", "iter", "contains", "keys", "values", "items", "call",
@@ -328,7 +328,7 @@ def _multiset_eq(a, b):
     return True
 
 
-def same_outcome(kind, m, real, model, ordered=False):
+def same_outcome(kind, m, real, model, ordered=False, exact=False):
     """True iff the two outcomes agree. Dict iteration order is compared only when ``ordered`` (the
     caller guarantees a history in which the built-in dict's order is the specified one)."""
     if real.ok != model.ok:
@@ -337,6 +337,12 @@ def same_outcome(kind, m, real, model, ordered=False):
         return real.family == model.family
     if ordered:
         return real.value == model.value and ordered_eq(real.value, model.value)
+    if exact and m in ("getitem", "get", "call", "values", "pop"):
+        # JSON leaf types must match too (true is not 1, 1 is not 1.0)
+        if kind == "dict" and m == "values":
+            return _multiset_eq(real.value, model.value) and \
+                sorted(map(repr, map(canon, real.value))) == sorted(map(repr, map(canon, model.value)))
+        return real.value == model.value and type_exact_eq(real.value, model.value)
     if kind == "dict" and m in UNORDERED:
         if not isinstance(real.value, list):
             return False
